@@ -524,8 +524,21 @@ func genTree(rng *rand.Rand, nrec int) *mon.AuditJSON {
 		}
 		pool = append(pool, a)
 	}
+	if nrec%7 == 3 {
+		// a long lineage on one path: 36-50 tasks, each the only input of the next
+		depth := 36 + rng.Intn(15)
+		prev := pool[len(pool)-1]
+		for k := 0; k < depth; k++ {
+			a := mk(nrec + 1 + k)
+			a.StartTime = prev.StartTime.Add(time.Duration(1+rng.Intn(900)) * time.Millisecond)
+			a.FinishTime = a.StartTime.Add(time.Millisecond)
+			a.Upstream[prev.OutFiles["out"]] = prev
+			pool = append(pool, a)
+			prev = a
+		}
+	}
 	// root: a record that reaches everything not yet reachable
-	root := mk(nrec)
+	root := mk(nrec + 100)
 	reach := map[string]bool{}
 	var walk func(a *mon.AuditJSON)
 	walk = func(a *mon.AuditJSON) {
